@@ -18,7 +18,9 @@ OBLIGATIONS = [
         desc="_authorization_decorator, all 7 Authorization values x 0-1 secret header: handler runs only with exactly the swissnum header; anything else is 401 "
              "(400 if the header cannot be encoded) before secrets are looked at and the handler is not called"),
     chx("authorization_secrets", "C30_h", "h_authorization", timeout=T, bounds={"quick": {"auth": 1}},
-        cases={"quick": [{"mask": m, "nh_max": (3 if m in (7, 11) else 2), "_label": n} for (n, m) in sorted(_MASKS.items())],
+        cases={"quick": [{"mask": m, "nh_max": 2, "_label": n} for (n, m) in sorted(_MASKS.items())]
+                        + [{"mask": m, "nh_max": 3, "nh": 3, "k0": k0, "_label": n + ",3headers,first-name-%s" % (k0 if k0 < 3 else "3-5")}
+                           for (n, m) in sorted(_MASKS.items()) if m in (7, 11) for k0 in (0, 1, 2, 3)],
                "thorough": [{"mask": m, "nh_max": 3, "_label": "mask%d" % m} for m in range(16)]},
         desc="_authorization_decorator/_extract_secrets with the correct swissnum, 0-3 secret headers (any of the 4 names, unknown name, malformed; symbolic decoded "
              "length) against each required set used by the routes: handler runs iff every header is well formed, no secret is empty, lease secrets are 32 bytes and "
